@@ -20,6 +20,7 @@ STREAMS = ("coordinates", "velocities", "forces")
 
 
 def task_n_timepoints(ctx):
+    """_n_timepoints(steps, stride) = steps div stride + 1 for stride > 0 and 0 otherwise (capacity of a stream)."""
     fn = ctx.under_contract(MD + ":HDF5Writer._n_timepoints")
     steps, stride = integer("steps"), integer("stride")
     for inc in (True, False):
@@ -156,6 +157,7 @@ def task_append_vectors(ctx):
 
 
 def task_append_data(ctx):
+    """HDF5Writer.append_data has exactly its contract effect (row at the cursor gets the label and the values handed in, cursor advances, nothing else changes) for a symbolic cursor and step."""
     fn = ctx.under_contract(MD + ":HDF5Writer.append_data")
     step = integer("step_idx")
     r = integer("r")
@@ -189,6 +191,7 @@ def task_append_data(ctx):
 
 
 def task_xyz_write(ctx):
+    """XYZWriter.write emits one frame labelled step+1 with the atoms of the selected molecule (padding slots skipped)."""
     fn = ctx.under_contract(MD + ":XYZWriter.write")
     step = integer("step")
 
@@ -716,6 +719,7 @@ for _d in (True, False):
         _CONFIGS[_name] = (_d, _m)
         globals()["task_" + _name] = _cfg_task(_d, _m)
 task_run_alloff = _cfg_task(False, (False, False, False), False, False, False)
+task_run_alloff.__doc__ = "every output stream disabled: no file, no group, no row, no checkpoint."
 
 TASKS_QUICK = ["n_timepoints", "append_vectors", "append_data", "xyz_write"] + sorted(_CONFIGS) + ["run_alloff", "resume_D_CVF", "resume_d_cVf"]
 # thorough: the resumed-run loop contract for every enable pattern of the streams (quick has two of the sixteen)
